@@ -16,7 +16,7 @@ RULE = ("exhaustive: all 2^n presence masks for n<=10 (quick) / n<=12 (thorough)
         "(3D marker, EMG, force/torque, platform data), as single track and inside 3-track blocks; seeded masks up to 5000 frames; "
         "segment tables parsed from the real bytes by an independent struct parser; each block decoded twice with the allocator "
         "dirtied by same-sized non-NaN arrays; plus in-place transitions: one track object, already printed/sized/encoded with mask m1, "
-        "edited through its arrays to mask m2 and written again - every ordered pair (m1, m2) for n<=4 (thorough 5), seeded pairs up to 1100 frames. non-trivial = mask with >=1 gap and >=1 present frame; distinct by (kind, mask)")
+        "[plus rows with NaN/+-inf in single components: table canonical, rows outside the runs read as NaN, rows inside keep their bits; table = the model's `see`] edited through its arrays to mask m2 and written again - every ordered pair (m1, m2) for n<=4 (thorough 5), seeded pairs up to 1100 frames. non-trivial = mask with >=1 gap and >=1 present frame; distinct by (kind, mask)")
 ASSUMPTIONS = ["uninitialised memory cannot be exhibited by the Lean model; that half is exploration of the real decoder (dirty-heap double decode)"]
 KINDS = ["data3d", "emg", "force3d", "platdata"]
 
@@ -101,6 +101,67 @@ def morph(kind, obj, frames_list):
                     vals = A.f32(f[col:col + w])
                     B._w(it, attr, i, vals[0] if arr.ndim == 1 else vals)
                 col += w
+
+
+def raw_rows_family(ctx, n):
+    """rows that are neither wholly missing nor wholly finite (NaN / +-inf in the first or in another component). The model's
+    `see` (first component finite) predicts the table; the oracle asks only what the property says for ANY table: canonical
+    runs, rows outside them read back as NaN in every component, rows inside carry their stored bits, on every decode"""
+    rng = ctx.rng
+    recs, cmds = [], []
+    for i in range(n):
+        kind = KINDS[i % 4]
+        k = A.NCOMP[kind]
+        nfr = rng.choice([1, 2, 3, 5, 8, 13, 40])
+        fl = [A.gen_frames(rng, k, nfr) for _ in range(rng.choice([1, 2]))]
+        v = block_with_tracks(kind, rng, fl)
+        try:
+            obj = A.build(kind, v, wide=rng.random() < 0.3)
+            raws = []
+            for it, _ in B.items_of(kind, obj):
+                attrs = B.TRACK_ARRAYS[kind]
+                for j in range(nfr):
+                    for a in attrs:
+                        arr = getattr(it, a)
+                        w = 1 if arr.ndim == 1 else arr.shape[1]
+                        for c in range(w):
+                            if rng.random() < 0.12:
+                                B._w(it, a, j if arr.ndim == 1 else (j, c), rng.choice([np.nan, np.inf, -np.inf]))
+                cols = [np.asarray(getattr(it, a)).reshape(nfr, -1) for a in attrs]
+                raws.append(A.raw_rows(np.concatenate(cols, axis=1), k))
+            enc = A.encode(obj)
+            tbls = parse_tables(kind, enc, len(fl))
+            dec = [raw_tracks(kind, A.klass(kind)._build(io.BytesIO(enc), obj.format.value)) for _ in range(2)]
+        except Exception as e:
+            ctx.fail(f"{kind}: a track with non-finite components cannot be encoded/decoded: {type(e).__name__}: {e}", dict(kind=kind, v=v), ident=f"{kind} non-finite rows raise")
+            continue
+        recs.append((kind, nfr, raws, tbls, dec))
+        cmds += [[Sym("rle.see"), k, rows] for rows in raws]
+    replies = common.drv_batch(cmds)
+    pos = 0
+    for kind, nfr, raws, tbls, dec in recs:
+        views = replies[pos:pos + len(raws)]
+        pos += len(raws)
+        ctx.case((kind, "raw", str(raws)[:300]), nontrivial=True, tags=(kind, "raw-rows"))
+        rep = dict(kind=kind, raw_rows=raws)
+        for ti, (rows, tbl, w) in enumerate(zip(raws, tbls, views)):
+            if not canonical(tbl, nfr):
+                ctx.fail(f"{kind}: segment table {tbl} written for rows with non-finite components is not canonical", rep, ident=f"{kind} table not canonical (raw rows)")
+                continue
+            inside = covered(tbl, nfr)
+            a, b = dec[0][ti], dec[1][ti]
+            ua = np.ascontiguousarray(a.astype("<f4")).view("<u4")
+            if not np.array_equal(ua, np.ascontiguousarray(b.astype("<f4")).view("<u4")):
+                ctx.fail(f"{kind}: two decodes of the same bytes differ", rep, ident=f"{kind} nondeterministic decode")
+            for j in range(nfr):
+                if not inside[j] and not np.isnan(a[j]).all():
+                    ctx.fail(f"{kind}: row {j} is outside the runs {tbl} but reads back as {a[j].tolist()}", rep, ident=f"{kind} gap not NaN (raw rows)")
+                    break
+                if inside[j] and [int(x) for x in ua[j]] != rows[j]:
+                    ctx.fail(f"{kind}: row {j} is inside the runs {tbl} but does not carry its stored bits", rep, ident=f"{kind} present frame changed (raw rows)")
+                    break
+            if [list(x) for x in w[1]] != tbl:
+                ctx.diff("rle.see.table", f"{kind}: real table {tbl}, the model's presence rule gives {[list(x) for x in w[1]]}", rep)
 
 
 def check_case(ctx, kind, v, frames_list, model_tbls, obj=None, came_from=None):
@@ -200,6 +261,7 @@ def run(ctx):
             continue
         v2 = A.norm(A.absv(kind, obj))
         check_case(ctx, kind, v2, fl2, mt, obj=obj, came_from=masks1)
+    raw_rows_family(ctx, ctx.n(250, 5000))
     cmds = []
     for kind, fl in jobs:
         for fr in fl:
